@@ -74,6 +74,27 @@ func (e *Engine) call(fr *frame, st *State, in *ssa.Call) *State {
 			classes = append(classes, 2)
 			continue
 		}
+		if sum := e.Summaries[f]; sum != nil && c.IsInvoke() {
+			// modular treatment of the packet decoders at the datagram level: their
+			// own obligations are discharged by their root analysis (any input, zero
+			// receiver); here only the conditional summary is used.
+			wn := st.Clone()
+			e.summaryCall(fr, wn, in, f, args)
+			we := wn.Clone()
+			if sum.MinLenOnNil > 0 && sum.SliceParam < len(args) {
+				wn.Assume(e.lenExpr(wn, args[sum.SliceParam]).AddConst(-sum.MinLenOnNil))
+			}
+			key := e.vid(in)
+			wn.isnil[key] = true
+			we.nonnil[key] = true
+			if sum.NilPossible && !wn.dead {
+				outs = append(outs, wn)
+				classes = append(classes, 0)
+			}
+			outs = append(outs, we)
+			classes = append(classes, 1)
+			continue
+		}
 		if e.onStack(f) || len(e.stack) >= e.MaxDepth {
 			s := st.Clone()
 			e.trace("recursion/depth cut at %s", shortFn(f))
@@ -91,7 +112,13 @@ func (e *Engine) call(fr *frame, st *State, in *ssa.Call) *State {
 		for _, r := range rets {
 			rs := r.st
 			cls := e.bindResults(rs, in, f, r.ret)
+			if e.Trace != nil && e.TraceFn != "" && strings.Contains(shortFn(f), e.TraceFn) {
+				e.trace("RET %s before cleanup: %s", shortFn(f), rs.String())
+			}
 			e.cleanupCallee(rs, f)
+			if e.Trace != nil && e.TraceFn != "" && strings.Contains(shortFn(f), e.TraceFn) {
+				e.trace("RET %s after cleanup: %s", shortFn(f), rs.String())
+			}
 			outs = append(outs, rs)
 			classes = append(classes, cls)
 		}
@@ -231,8 +258,10 @@ func (e *Engine) bindResults(rs *State, call *ssa.Call, f *ssa.Function, ret *ss
 				a := e.tupSlot(slot+"#len", Range{0, lenMax, true, true})
 				rs.Bind(a, e.lenExpr(rs, r))
 				setBool(rs.elemsNN, slot, e.elemsNonNil(rs, r))
+				setBool(rs.elemsNN, "D"+slot, e.elemsDeepNN(rs, r))
 			default:
 				setBool(rs.nonnil, slot, e.isNonNil(rs, r))
+				setBool(rs.nonnil, "D"+slot, e.isDeepNN(rs, r))
 				setBool(rs.isnil, slot, e.isNil(rs, r))
 				if p, ok := e.addrOf(rs, r); ok {
 					rs.ptr[slot] = p
@@ -309,21 +338,52 @@ func (e *Engine) cleanupCallee(rs *State, f *ssa.Function) {
 	}
 	for _, b := range f.Blocks {
 		for _, in := range b.Instrs {
-			if al, ok := in.(*ssa.Alloc); ok && !al.Heap {
+			if al, ok := in.(*ssa.Alloc); ok {
+				// heap objects of a returned callee are reachable only through the
+				// returned pointers; their contents are not needed by callers
 				allocs[e.allocObj(al)] = true
 			}
 		}
 	}
+	dead := map[Atom]bool{}
+	for _, a := range atoms {
+		dead[a] = true
+	}
 	for key, a := range e.cellAtom {
-		if !used[a] {
-			continue
-		}
 		obj := key
-		if i := strings.IndexAny(key, ".#"); i >= 0 {
+		if i := strings.IndexAny(key, ".#["); i >= 0 {
 			obj = key[:i]
 		}
-		if allocs[obj] || strings.HasPrefix(obj, "G") && e.aggOwned(obj, f) {
-			atoms = append(atoms, a)
+		isDead := allocs[obj] || strings.HasPrefix(obj, "G") && e.aggOwned(obj, f)
+		if strings.HasPrefix(key, "pure:") {
+			if v, ok := e.vidOwner(key[strings.LastIndex(key, ":")+1:]); ok && owned(v) {
+				isDead = true
+			}
+		}
+		if isDead {
+			dead[a] = true
+			if used[a] {
+				atoms = append(atoms, a)
+			}
+		}
+	}
+	// hash-consed wrapped values that depend on dead atoms are dead too
+	for changed := true; changed; {
+		changed = false
+		for w, deps := range e.wrapOf {
+			if dead[w] {
+				continue
+			}
+			for _, d := range deps {
+				if dead[d] {
+					dead[w] = true
+					changed = true
+					if used[w] {
+						atoms = append(atoms, w)
+					}
+					break
+				}
+			}
 		}
 	}
 	// non-base first (cheap), then base atoms
@@ -340,9 +400,10 @@ func (e *Engine) cleanupCallee(rs *State, f *ssa.Function) {
 	// facts keyed by callee values
 	dropKey := func(k string) bool {
 		base := k
-		if i := strings.IndexAny(k, ".#"); i >= 0 {
+		if i := strings.IndexAny(k, ".#["); i >= 0 {
 			base = k[:i]
 		}
+		base = strings.TrimPrefix(base, "D")
 		if strings.HasPrefix(base, "E") {
 			base = base[1:]
 		}
@@ -444,6 +505,19 @@ func (e *Engine) conservativeCall(fr *frame, st *State, call *ssa.Call, f *ssa.F
 	e.freshCallResult(st, call)
 }
 
+// summaryCall: effects of a summarised decoder: it may write the object its
+// receiver points to (and nothing else the caller tracks); results are unknown.
+func (e *Engine) summaryCall(fr *frame, st *State, call *ssa.Call, f *ssa.Function, args []ssa.Value) {
+	// the decoder's allocations are accounted by its own root analysis (every
+	// loop of every decoder carries its own M-ALLOC obligation for any input)
+	if len(args) > 0 {
+		if ad, ok := e.addrOf(st, args[0]); ok {
+			e.havocObject(st, ad.Obj)
+		}
+	}
+	e.freshCallResult(st, call)
+}
+
 // ---- builtins and external functions (trusted model, DESIGN §1.1)
 
 func (e *Engine) builtin(fr *frame, st *State, in *ssa.Call, b *ssa.Builtin) {
@@ -476,6 +550,11 @@ func (e *Engine) builtin(fr *frame, st *State, in *ssa.Call, b *ssa.Builtin) {
 		e.appendObligation(fr, st, in, add)
 		st.Bind(e.lenAtomOf(in), base.Add(add))
 		setBool(st.elemsNN, e.vid(in), nn)
+		dn := e.elemsDeepNN(st, c.Args[0])
+		if len(c.Args) > 1 {
+			dn = dn && e.appendedDeepNN(st, c.Args[1])
+		}
+		setBool(st.elemsNN, "D"+e.vid(in), dn)
 	case "copy":
 		a := e.atomOf(in)
 		st.Forget(a)
@@ -517,6 +596,38 @@ func (e *Engine) appendedNonNil(st *State, v ssa.Value) bool {
 			if s, ok := r2.(*ssa.Store); ok {
 				n++
 				if !e.isNonNil(st, s.Val) {
+					all = false
+				}
+			}
+		}
+	}
+	return all && n > 0
+}
+
+// appendedDeepNN: like appendedNonNil for the deep flag.
+func (e *Engine) appendedDeepNN(st *State, v ssa.Value) bool {
+	if !isPointerLike(elemType(v.Type())) {
+		return true
+	}
+	sl, ok := v.(*ssa.Slice)
+	if !ok {
+		return e.elemsDeepNN(st, v)
+	}
+	al, ok := sl.X.(*ssa.Alloc)
+	if !ok || al.Referrers() == nil {
+		return false
+	}
+	all := true
+	n := 0
+	for _, ref := range *al.Referrers() {
+		ia, ok := ref.(*ssa.IndexAddr)
+		if !ok {
+			continue
+		}
+		for _, r2 := range *ia.Referrers() {
+			if s, ok := r2.(*ssa.Store); ok {
+				n++
+				if !e.isDeepNN(st, s.Val) {
 					all = false
 				}
 			}
